@@ -157,6 +157,7 @@ def run(out, tier):
     push_like(out, eng)
     state_fork(out, eng)
     composite(out, eng)
+    generational_stores(out, eng)
 
 
 # =============================================================================================================
@@ -798,3 +799,186 @@ def composite(out, eng):
                 else:
                     out.obligation(oid, "mirsmt", "cex-not-reproduced", dt, witness=False, note=bad, replay=rep)
                     out.inconc("%s: %s (not reproduced natively: %s)" % (oid, bad, str(rep)[:200]))
+
+
+# =============================================================================================================
+# W7: the generational stores.  Storage::store / Memory::store_with_size append exactly the stored value to the history
+#     of exactly the addressed key, in the map that the key's kind selects; Storage::load / Memory::load never append to
+#     an existing history.  Maps are modelled as "arbitrary content + the entries touched by this call"; every history
+#     as "arbitrary (possibly empty) prefix + the pushes of this call"; everything else the bodies call is havoc'd.
+# =============================================================================================================
+def genmap_summaries():
+    from mirsmt.summaries import load, some, none, call_closure, obj_at
+
+    def mk_map(lz):
+        return Obj("genmap", lz.ty, name=lz.name, entries=[])
+
+    def mk_hist(name, fresh):
+        return Obj("genvec", "Vec", name=name, fresh=fresh, pushed=[])
+
+    def entry(ctx, a, ty, c):
+        m = obj_at(ctx, a[0], mk_map)
+        if m.kind != "genmap":
+            return NotImplemented
+        ctx.events.append(("map-entry", m.name, a[1]))
+        return Obj("gentry", ty, map=m, key=a[1])
+
+    def lookup(ctx, e, make_default):
+        # the key may or may not be in the map already (arbitrary pre-state)
+        absent = ctx.choose(2) == 1
+        if absent:
+            init = make_default()
+            h = mk_hist("%s[new]" % e.map.name, True)
+            if isinstance(init, Obj) and init.kind == "vec":
+                h.pushed = list(init.pushed)
+            else:
+                from mirsmt.interp import type_args
+                try:
+                    et = type_args(type_args(e.map.ty)[1])[0]
+                except Exception:
+                    et = "?"
+                h.pushed = [Lazy(et, "%s.initial" % e.map.name)]
+            h.initial = len(h.pushed)
+        else:
+            h = mk_hist("%s[old]" % e.map.name, False)
+            h.initial = 0
+        e.map.entries.append((e.key, h))
+        ctx.events.append(("history", e.map.name, h))
+        return Ref(Cell(h, "history"), (), True)
+
+    def or_insert(ctx, a, ty, c):
+        if not (isinstance(a[0], Obj) and a[0].kind == "gentry"):
+            return NotImplemented
+        return lookup(ctx, a[0], lambda: a[1])
+
+    def or_insert_with(ctx, a, ty, c):
+        if not (isinstance(a[0], Obj) and a[0].kind == "gentry"):
+            return NotImplemented
+        return lookup(ctx, a[0], lambda: call_closure(ctx, a[1], []))
+
+    def hist_of(ctx, r):
+        v = load(ctx, r) if isinstance(r, Ref) else r
+        return v if isinstance(v, Obj) and v.kind == "genvec" else None
+
+    def push(ctx, a, ty, c):
+        h = hist_of(ctx, a[0])
+        if h is None:
+            return NotImplemented
+        h.pushed.append(a[1])
+        return UNIT
+
+    def last(ctx, a, ty, c):
+        h = hist_of(ctx, a[0])
+        if h is None:
+            return NotImplemented
+        if h.pushed:
+            return some(ty, Ref(Cell(h.pushed[-1], "last"), ()))
+        if h.fresh or ctx.choose(2) == 1:
+            return none(ty)
+        return some(ty, Ref(Cell(Lazy(re.sub(r"^.*Option<&(.*)>$", r"\1", ty.strip()), h.name + ".last"), "last"), ()))
+
+    def deref_vec(ctx, a, ty, c):
+        return a[0] if hist_of(ctx, a[0]) is not None else NotImplemented
+
+    def other_map_op(ctx, a, ty, c):
+        ctx.events.append(("map-op", c))
+        return NotImplemented
+    return [(r"^HashMap::<.*>::entry$", entry), (r"^Entry::<.*>::or_insert$", or_insert), (r"^Entry::<.*>::or_insert_with::<.*>$", or_insert_with),
+            (r"^Vec::<.*>::push$", push), (r"^core::slice::<impl \[.*\]>::last$", last),
+            (r"^<Vec<.*> as Deref(Mut)?>::deref(_mut)?$", deref_vec),
+            (r"^HashMap::<.*>::(insert|remove|clear|retain|get_mut|drain|extend)", other_map_op)]
+
+
+def generational_stores(out, eng):
+    from mirsmt.summaries import load
+
+    def same_value(a, b):
+        if a is b:
+            return True
+        return isinstance(a, Lazy) and isinstance(b, Lazy) and a.name == b.name
+
+    def fn_in(suffix, file):
+        return eng.fn(suffix, file=file)
+    targets = [
+        ("W7.storage_store", fn_in(">::store", "src/vm/state/storage.rs"), "storage", "store"),
+        ("W7.storage_load", fn_in(">::load", "src/vm/state/storage.rs"), "storage", "load"),
+        ("W7.memory_store", fn_in(">::store_with_size", "src/vm/state/memory.rs"), "memory", "store"),
+        ("W7.memory_load", fn_in(">::load", "src/vm/state/memory.rs"), "memory", "load"),
+    ]
+    for oid, f, which, op in targets:
+        t0 = time.time()
+        if f is None:
+            out.inconc("%s: function not found in the MIR dump" % oid)
+            continue
+        ex = eng.explorer(extra=genmap_summaries(), havoc_unknown=True, max_visits=3, max_seconds=120)
+        KEY = Lazy("Arc<SymbolicValue<()>>", "key")
+        VAL = Lazy("Arc<SymbolicValue<()>>", "value")
+
+        def body(ctx, f=f, which=which, op=op):
+            ctx.inline_filter = lambda name: bool(re.search(r"src/vm/state/(storage|memory)\.rs|::data$|\{closure#\d+\}$", name))
+            st = Cell(Lazy("vm::state::%s::%s" % (which, which.capitalize()), "st"), "st")
+            if which == "storage" and op == "store":
+                args = [Ref(st, (), True), KEY, VAL]
+            elif which == "storage":
+                args = [Ref(st, (), True), Ref(Cell(KEY, "key"), ())]
+            elif op == "store":
+                args = [Ref(st, (), True), KEY, VAL, Lazy("vm::state::memory::MemStoreSize", "size")]
+            else:
+                args = [Ref(st, (), True), Ref(Cell(KEY, "key"), ())]
+            r = ctx.run_fn(f, args)
+            return r, ctx
+        try:
+            paths = ex.explore(body)
+        except Unsupported as e:
+            out.obligation(oid, "mirsmt", "inconclusive", time.time() - t0, witness=False, note=str(e))
+            out.inconc("%s: %s" % (oid, e))
+            continue
+        bad, seen = None, 0
+        for p in paths:
+            if p.kind == "panic":
+                continue          # C01's business
+            if p.kind != "return":
+                bad = bad or "a path ends with %s (%s)" % (p.kind, p.msg[:60])
+                continue
+            ctx = p.ret[1]
+            seen += 1
+            hists = [e for e in ctx.events if e[0] == "history"]
+            stray = [e for e in ctx.events if e[0] == "map-op"]
+            if stray:
+                bad = "the map is also modified through %s" % stray[0][1][:60]
+                continue
+            if len(hists) != 1:
+                bad = "touches %d histories, one access addresses exactly one" % len(hists)
+                continue
+            h = hists[0][2]
+            new = h.pushed[h.initial:]
+            if op == "store":
+                if len(new) != 1:
+                    bad = "a store appends %d generations to the addressed history (must be exactly one)" % len(new)
+                    continue
+                got = new[0]
+                if which == "memory":
+                    got = got.fields.get(0) if isinstance(got, Agg) else None
+                if not same_value(got, VAL):
+                    bad = "the appended generation is not the stored value"
+            else:
+                if new and not h.fresh:
+                    bad = "a load appends a generation to an existing history"
+                if h.fresh and len(h.pushed) != 1:
+                    bad = "a load of a never-accessed key initialises its history with %d generations (must be one)" % len(h.pushed)
+        dt = time.time() - t0
+        what = {"store": "a store appends exactly the stored value to exactly the addressed history",
+                "load": "a load leaves existing histories as they are and initialises a missing one with one generation"}[op]
+        if bad is None and seen:
+            out.obligation(oid, "mirsmt", "holds", dt, witness=True, paths=seen, note=what)
+        elif bad is None:
+            out.obligation(oid, "mirsmt", "vacuous", dt, witness=False)
+            out.inconc("%s: no returning path" % oid)
+        else:
+            confirmed, rep = native.scenario(out, "%s_history" % which, {})
+            if confirmed:
+                out.obligation(oid, "mirsmt", "violated", dt, witness=True, note=bad, replay=rep)
+                out.violation(C.Violation(key="generational-store:%s" % oid, what="%s: %s" % (oid, bad), replay={"engine": "mirsmt", "native": rep}))
+            else:
+                out.obligation(oid, "mirsmt", "cex-not-reproduced", dt, witness=False, note=bad, replay=rep)
+                out.inconc("%s: %s (not reproduced natively: %s)" % (oid, bad, str(rep)[:200]))
